@@ -362,10 +362,14 @@ Fixpoint decode_prog (p : list (list Z)) : list op :=
   | [] => []
   | z :: r => match decode_op z with Some o => o :: decode_prog r | None => decode_prog r end
   end.
-(* cfg = <future slots per client> <indices of the copies that throw>... *)
+(* cfg = <future slots per client> <driver variant> <indices of the copies that throw>...
+   The variant selects the instantiation the driver uses (0: X = payload whose copy is user code; 1: X = long,
+   programs without const X& setters / fulfillAllPromises, so no copy is ever made): same events and values,
+   the model ignores it. *)
 Definition init_cfg (cfg : list Z) (progs : list (list (list Z))) : sys glob loc :=
   match cfg with
-  | n :: pl => init (Z.to_nat n) pl (map decode_prog progs)
+  | n :: _ :: pl => init (Z.to_nat n) pl (map decode_prog progs)
+  | n :: [] => init (Z.to_nat n) [] (map decode_prog progs)
   | [] => init O [] (map decode_prog progs)
   end.
 
